@@ -96,6 +96,8 @@ func init() {
 		codecTraceRun(c, "unknown", 10, 120, func(v CodecVerdict) bool {
 			return v.Ev == "unmarshal" || v.Ev == "marshal" || (v.Ev == "alias_in" && v.Tag == "unknown-alias")
 		})
+		// records of every payload length / tag width / varint width are stored byte for byte
+		skipSweepRun(c, func(what string) bool { return true })
 		// GetUnknown / SetUnknown read and replace exactly that set (reflection model, incl. a
 		// slice held across SetUnknown)
 		mcReflectCheck(c, func(v ReflVerdict) bool {
